@@ -257,7 +257,7 @@ func work(ctx *runner.Ctx) {
 		if !ctx.Mine(idx) {
 			return true
 		}
-		if idx&0x3ff == 0 && ctx.Expired() {
+		if ctx.Expired() {
 			return false
 		}
 		runCase(ctx, k)
